@@ -149,6 +149,30 @@ CASCADE_PROFILE = {
 }
 # ---- end OutputVariable.defuzzify
 
+# ---- Engine.process (C01): the top-level structure of Op.Engine.processRow (one input row)
+ENG = "Op.Engine"
+PROCESS_PROFILE = {
+    "name": "Engine_process", "module": "fuzzylite.engine", "object": "Engine.process", "file": "CodeEngine",
+    # fz: the fuzzy output (list of activated terms) of the output variable at each position before the call
+    "params": [("F", "Fn Rat"), ("e", f"{ENG}.EngineD Rat"), ("fz", f"Nat → List ({ENG}.Act Rat)")],
+    "init": {"fuzzy": "((List.range e.outputs.length).map fz)"},
+    "locals": {"variable": f"Nat × {ENG}.OutVar Rat", "block": f"{ENG}.Block Rat", "fuzzy": f"{ENG}.Fuzzy Rat",
+               "rules": f"List (List ({ENG}.RuleObs Rat))", "raw": "List (Option (X Rat))"},
+    "externals": [
+        ("self.output_variables", "(Py.enumerate e.outputs)", f"List (Nat × {ENG}.OutVar Rat)", True),   # (position, variable)
+        ("self.rule_blocks", "e.blocks", f"List ({ENG}.Block Rat)", True),
+        ("block.enabled", "σ.block.enabled", "Bool", True),
+    ],
+    "stmt_externals": [
+        ("variable_.fuzzy.clear()", "{{ σ with fuzzy := σ.fuzzy.set σ.variable_.1 [] }}", True),
+        ("block.activate()",
+         "(Py.Eng.ofOption (Op.Engine.activateBlock F e.inputs e.outputs σ.block σ.fuzzy) >>= fun p => .ok {{ σ with fuzzy := p.1, rules := σ.rules ++ [p.2] }})", False),
+        ("variable_.defuzzify()",
+         "(Py.Eng.defuzzifyVar F e σ.fuzzy σ.variable_ >>= fun r => .ok {{ σ with raw := σ.raw ++ [r] }})", False),
+    ],
+}
+# ---- end Engine.process
+
 PROFILES = [
     {
         "name": "Rule_parse", "module": "fuzzylite.rule", "object": "Rule.parse", "file": "CodeRule",
@@ -181,6 +205,7 @@ PROFILES = [
     act("Proportional", dict(DEG, sum_degrees="X Rat", activate="List Nat", ref="Nat"), loop_rename={2: {"rule": "ref"}}),
     READY_PROFILE,
     CASCADE_PROFILE,
+    PROCESS_PROFILE,
 ]
 
 FILES = {
@@ -189,4 +214,5 @@ FILES = {
     "CodeActivation": {"imports": ["FlVerif.Op.PyExtAct"]},
     "CodeReady": {"imports": ["FlVerif.Op.PyExtReady"]},
     "CodeCascade": {"imports": ["FlVerif.Op.PyExtCascade"]},
+    "CodeEngine": {"imports": ["FlVerif.Op.PyExtEngine"]},
 }
